@@ -13,7 +13,7 @@ RULE = ("Hypothesis-generated systems (2-4 atom types, comb-rule 1/2, 1-3 molecu
         "1-4 atoms and optional virtual site, linear/branched/ring, [molecules] lists with repeated names and "
         "counts 1-3) x option sets (-box cubic/rectangular or -dens, -c/-mc full/partial, -gs, -grid, -sf, -mf, "
         "-nr, -start, -res) x polyply RNG seed x (one case in three) a scripted pattern of rejected placement steps, "
-        "with a flavour in which supplied and -res residues alternate along chains; the written .gro is parsed independently and compared with the "
+        "complete structures that carry a small (<= 1.2 nm) cell, and a flavour in which supplied and -res residues alternate along chains; the written .gro is parsed independently and compared with the "
         "expansion of [molecules] and with the expected box. non-trivial = (>=2 molecule types used or a "
         "repeated name) and a multi-atom residue; distinct = spec hash")
 ASSUMPTIONS = ["independent .gro reader pbt/itp.py", "dilute boxes (placement always converges; time-outs are inconclusive)",
